@@ -25,7 +25,7 @@ ASSUMPTIONS = [
 ]
 REACH = {"quick": {"len:0": 100, "na:all": 100, "kind:lstr": 100, "kind:ostr": 50, "fn:rank": 1000, "fn:sort": 1000, "fn:unique": 500, "tag:big": 10, "after-inplace-edit": 1000}}
 
-KINDS = ["bool", "int", "float", "str", "str", "lstr", "ustr", "date", "datetime", "ostr", "obool", "timedelta", "int_be", "float_be", "datetime_be"]
+KINDS = ["bool", "int", "float", "str", "str", "lstr", "ustr", "date", "datetime", "ostr", "obool", "timedelta", "int_be", "float_be", "datetime_be", "tstr"]
 
 def generate(rng, tier):
     if rng.random() < 0.002:
@@ -61,6 +61,8 @@ def generate(rng, tier):
         case["dir"] = rng.choice([1, -1])
     if fn == "rank":
         case["method"] = rng.choice(["min", "max", "ordinal"])
+    if rng.random() < 0.2:
+        case["layout"] = rng.choice(["strided", "reversed"])      # the vector is a non-contiguous view of another vector
     if n and rng.random() < 0.3 and kind in ("str", "int", "float", "date", "bool"):
         p2 = [v for v in gen.pool(rng, kind, 0.0) if not (kind == "str" and len(v) > max([len(x) for x in values if x] + [1]) and False)]
         case["edit"] = (rng.randrange(n), rng.choice(p2))
@@ -95,7 +97,18 @@ def _execute(case, history):
     res.cls(f"fn:{fn}", f"kind:{kind}", f"len:{n if n < 3 else '3+'}", f"na:{nacls}")
     for t in case["tags"]:
         res.cls("tag:" + t)
-    if history is None:
+    layout = case.get("layout")
+    if history is None and layout and n:
+        if layout == "strided":
+            filler = [v for v in values if v is not None][:1] or [None]
+            inter = [x for v in values for x in (v, filler[0])]
+            vec = di.Vector(gen.np_column(kind, inter))[::2]
+        else:
+            vec = di.Vector(gen.np_column(kind, values[::-1]))[::-1]
+        res.cls(f"layout:{layout}")
+        if np.asarray(vec).flags["C_CONTIGUOUS"] and n > 1:
+            raise RuntimeError("harness: expected a non-contiguous view")
+    elif history is None:
         vec = di.Vector(gen.np_column(kind, values))
     else:
         old_values, pos, newv = history
